@@ -11,7 +11,7 @@ Definition pool_within_bounds (size : Z) (s : pool) : Prop :=
   Z.of_nat (length (p_conns s)) + Z.of_nat (length (p_tasks s)) <= Z.max 0 size.
 
 (* "a connection reported closed is removed from its pool": every pooled connection is open, or
-   its error callback is still on its way *)
+   its error callback is still on its way (it will remove it) *)
 Definition pooled_conns_alive (s : pool) : Prop :=
   forall c, In c (p_conns s) -> In c (p_open s) \/ In c (p_dead s).
 
@@ -20,39 +20,6 @@ Definition pooled_conns_alive (s : pool) : Prop :=
 Definition no_leak (s : pool) : Prop :=
   forall c, In c (p_open s) -> In c (p_conns s) \/ In c (in_hand s) \/ In c (p_closing s).
 
-(* schedules on which some predicate of (state, next label) never fires *)
-Fixpoint pavoids (bad : pool -> plabel -> bool) (s : pool) (ls : list plabel) : bool :=
-  match ls with
-  | [] => true
-  | l :: r => negb (bad s l) && match pstep s l with Some s' => pavoids bad s' r | None => true end
-  end.
-
-(* the error callback for connection c runs while a connect still holds c (between the end of
-   session.connect and the pool lock) *)
-Definition herr_in_hand (s : pool) (l : plabel) : bool :=
-  match l with HErr c _ => memb c (in_hand s) | _ => false end.
-
-(* ---------------- refresh debouncer ---------------- *)
-
-Fixpoint ravoids (bad : rdeb -> rlabel -> bool) (s : rdeb) (ls : list rlabel) : bool :=
-  match ls with
-  | [] => true
-  | l :: r => negb (bad s l) && match rstep s l with Some s' => ravoids bad s' r | None => true end
-  end.
-
-(* stop() takes effect (sets stopped) while a refresh request is pending, or refreshNow is called
-   once stop() has taken effect *)
-Definition request_races_stop (s : rdeb) (l : rlabel) : bool :=
-  match l with
-  | RStopLock _ => negb (r_stopped s) && negb (r_calm s)
-  | RRefreshNow => r_stopped s
-  | _ => false
-  end.
-
-(* a stop() call that can never return: blocked in the send on quit while the flusher is gone *)
-Definition r_stop_stuck (s : rdeb) (t : nat) : Prop :=
-  alookup t (r_stoppers s) = Some RSSend /\ r_fl s = RExited.
-
 (* ---------------- event debouncer ---------------- *)
 
 Definition e_stop_calls (ls : list elabel) : nat :=
@@ -60,11 +27,3 @@ Definition e_stop_calls (ls : list elabel) : nat :=
 
 Definition e_stop_stuck (s : edeb) (t : nat) : Prop :=
   alookup t (e_stoppers s) = Some ESSend /\ e_fl s = EExited.
-
-(* the flusher, woken by a request or by the timer (not by quit), finds stopped set: it returns
-   without ever receiving from quit *)
-Definition flusher_misses_quit (s : rdeb) (l : rlabel) : bool :=
-  match l with
-  | RFlLock => r_stopped s && match r_fl s with RWoke SNow | RWoke STimer => true | _ => false end
-  | _ => false
-  end.
